@@ -169,7 +169,7 @@ func QuickHeaders() HeaderUniverse {
 		Consumes: [][]string{nil, {JSON}, {XML, JSON}, {"*/*"}},
 		Produces: [][]string{nil, {JSON}, {XML}, {JSON, XML}, {"*/*"}},
 		Ifs:      [][]rm.Cond{nil, {rm.CondTrue}, {rm.CondFalse}, {rm.CondHdr}},
-		NoCT:     [][]string{nil},
+		NoCT:     [][]string{nil, {"POST"}, {"GET", "POST"}},
 		CTs:      []string{"", JSON, XML, "application/json; charset=utf-8", "text/plain", "application/jsonx"},
 		Accepts:  []string{"", "*/*", JSON, XML, "text/plain", "application/xml;q=0.5, application/json", "application/jsonx", ",;q=, " + JSON},
 		XCs:      []string{"", "1"},
@@ -179,7 +179,6 @@ func QuickHeaders() HeaderUniverse {
 
 func ThoroughHeaders() HeaderUniverse {
 	hu := QuickHeaders()
-	hu.NoCT = [][]string{nil, {"POST"}}
 	hu.Produces = append(hu.Produces, []string{"application/vnd.v+json"})
 	hu.Ifs = append(hu.Ifs, []rm.Cond{rm.CondTrue, rm.CondHdr}, []rm.Cond{rm.CondHdr, rm.CondFalse})
 	hu.CTs = append(hu.CTs, "*/*", ";;,", " application/json ")
